@@ -398,6 +398,13 @@ func runC20(p params) error {
 			c20AddCase(out, "route-all-majors", c20Input{Kind: "route", HasTLCP: cf[0], HasTLS: cf[1], Chunks: c20Chunk(r, stream, 5)})
 		}
 	}
+	// route: the minor version byte plays no part: majors 1, 3 (and 2) with many minors
+	for _, v := range []byte{1, 3, 2} {
+		for _, mn := range []byte{0, 1, 2, 3, 4, 0x0f, 0x7f, 0x80, 0xff, byte(r.IntN(256)), byte(r.IntN(256))} {
+			stream := append([]byte{22, v, mn, 0, 9}, rb(9)...)
+			c20AddCase(out, "route-minors", c20Input{Kind: "route", HasTLCP: true, HasTLS: true, Chunks: c20Chunk(r, stream, 5)})
+		}
+	}
 	// route: early disconnect at every offset 0..6, majors 1 and 3
 	for _, v := range []byte{1, 3, 2} {
 		for cut := 0; cut <= 6; cut++ {
